@@ -104,8 +104,8 @@ func runC14(c *core.Ctx) {
 		c.Min("C14-R1", len(unlinks), 2, "unlink stores in pop (head case and interior case)")
 		// returns
 		type retInfo struct {
-			ret  *ssa.Return
-			node ssa.Value // nil when returning nil
+			ret   *ssa.Return
+			node  ssa.Value // nil when returning nil
 			isNil bool
 		}
 		var rets []retInfo
